@@ -7,6 +7,7 @@ CONSTANTS
   MaxSteps = 7
   WithWriteDirect = TRUE
   WithAppend = TRUE
+  WithBook = TRUE
   Dev_AppendKeepsTail = FALSE
 INIT Init
 NEXT Next_
